@@ -9,6 +9,7 @@ import (
 	"log"
 	"os"
 	"runtime"
+	"slices"
 	"sync/atomic"
 
 	"github.com/apmckinlay/gsuneido/core"
@@ -375,7 +376,9 @@ func (db *Database) buildIndexes(table string,
 	}
 
 	nold := len(ts.Indexes)
-	ts.Indexes = append(ts.Indexes, newIdxs...)
+	// clone because SetupNewIndexes modifies the existing indexes (Primary)
+	// and they are shared with concurrent transactions
+	ts.Indexes = append(slices.Clone(ts.Indexes), newIdxs...)
 	newIdxs = ts.SetupNewIndexes(nold)
 	nlayers := ti.Indexes[0].Nlayers()
 	list := sortlist.NewSorting(func(x uint64) bool { return x == 0 },
